@@ -33,8 +33,10 @@ func valIn(fd protoreflect.FieldDescriptor, v protoreflect.Value, l protoreflect
 func sameMessage(a, b proto.Message) bool {
 	switch x := a.(type) {
 	case *sbom.Person:
+		// field by field and contact by contact, independently of the library's own rendering of a person
+		// (an absent contact list and an empty one are different values here, as they are for Equal)
 		if y, ok := b.(*sbom.Person); ok {
-			return x.VerifFlatString() == y.VerifFlatString()
+			return samePerson(x, y)
 		}
 	case *sbom.ExternalReference:
 		// field by field, independently of the library's own rendering of a reference
@@ -51,6 +53,24 @@ func sameMessage(a, b proto.Message) bool {
 		}
 	}
 	return proto.Equal(a, b)
+}
+
+func samePerson(x, y *sbom.Person) bool {
+	if x == nil || y == nil {
+		return x == y
+	}
+	if x.Name != y.Name || x.IsOrg != y.IsOrg || x.Email != y.Email || x.Url != y.Url || x.Phone != y.Phone {
+		return false
+	}
+	if (x.Contacts == nil) != (y.Contacts == nil) || len(x.Contacts) != len(y.Contacts) {
+		return false
+	}
+	for i := range x.Contacts {
+		if !samePerson(x.Contacts[i], y.Contacts[i]) {
+			return false
+		}
+	}
+	return true
 }
 
 func unixOf(m protoreflect.Message, fd protoreflect.FieldDescriptor) (int64, bool) {
@@ -228,6 +248,15 @@ func runC14(seed int64, n int, dir string, tier string) *Report {
 			}
 			check(a, mv, "extref-field-moved")
 			check(mv, a, "extref-field-moved-reverse")
+		}
+		if i%6 == 0 {
+			// every single-attribute change, at every nesting level (contacts of contacts included)
+			pts := gen.MutationPoints(a.ProtoReflect())
+			for k := 0; k < pts; k++ {
+				mk := cloneNode(a)
+				gen.MutateAt(mk.ProtoReflect(), k)
+				check(a, mk, "one-point-changed")
+			}
 		}
 		if i%4 == 0 {
 			check(a, &sbom.Node{}, "to-empty")
